@@ -226,10 +226,17 @@ func (p *Prog) goValExpr(v string) (string, bool) {
 		tidTxt, payload = rest[:sp2], strings.TrimSpace(rest[sp2+1:])
 	}
 	tid, ok := smtInt(tidTxt)
-	if !ok || tid < 1 || int(tid) > len(p.tidList) {
-		return "", false
+	var T types.Type
+	if ok && tid >= 1 && int(tid) <= len(p.tidList) {
+		T = p.tidList[tid-1]
+	} else {
+		// the model left the dynamic type open (any type of that kind): take the widest Go type of the kind
+		T = map[string]types.Type{"vint": types.Typ[types.Int64], "vuint": types.Typ[types.Uint64], "vbool": types.Typ[types.Bool],
+			"vf64": types.Typ[types.Float64], "vf32": types.Typ[types.Float32], "vstr": types.Typ[types.String]}[ctor]
+		if T == nil {
+			return "", false
+		}
 	}
-	T := p.tidList[tid-1]
 	switch ctor {
 	case "vint", "vuint", "vbool", "vf64", "vf32", "vstr":
 		return goBasicExpr(T, "", payload)
